@@ -342,6 +342,27 @@ func c04Check(env *core.Env, cc core.Case) core.Verdict {
 			}
 		}
 	}
+	if c.Seed%3 == 0 {
+		// the same block through the file-based commands: what update stores is what generate prints
+		t := sut.Tree{"regex-assembly/932100.ra": program, "rules/REQUEST-932-APPLICATION-ATTACK-RCE.conf": "SecRule ARGS \"@rx old\" \\\n    \"id:932100,\\\n    phase:2,\\\n    deny\"\n"}
+		if err := t.Write(root); err != nil {
+			return core.Incon("cannot write rules file: %v", err)
+		}
+		uargs := append(append([]string{}, args[:len(args)-3]...), "regex", "update", "932100")
+		u := sut.Run(sut.Cmd{Bin: env.Bin, Args: uargs, Dir: root})
+		if u.Class() == sut.ClassTimeout {
+			return core.Incon("watchdog hit, not judged: %s", describe(u))
+		}
+		if u.Exit != 0 {
+			return fail("update-rejects-cmdline-block", "update fails where generate succeeds: %s", describe(u))
+		}
+		conf, _ := sut.Read(root, "rules/REQUEST-932-APPLICATION-ATTACK-RCE.conf")
+		op, ok := operandOf(strings.SplitN(conf, "\n", 2)[0])
+		if !ok || op != out {
+			return fail("update-stores-other-text", "update stored %s, generate printed the output below", core.Q(op))
+		}
+		v.Counts["update_round_trips"]++
+	}
 	v.Nontrivial = v.Counts["variants_checked"] >= 3
 	return v
 }
@@ -398,11 +419,15 @@ func c04Gen(r *rand.Rand) *c04Case {
 	}
 	marker := evasionCfg{Unix: "_eu_", Windows: "_ew_", SuffixUnix: "_su_", SuffixWindows: "_sw_", NoSpUnix: "_nu_", NoSpWindows: "_nw_"}
 	star := evasionCfg{Unix: `[\x5c'\"]*`, Windows: `[\"\^]*`, SuffixUnix: `(?:\s|<|>).*`, SuffixWindows: `(?:[\s,;]|\.|/|<|>).*`, NoSpUnix: `(?:<|>).*`, NoSpWindows: `[,;./<>].*`}
-	switch r.Intn(13) {
+	switch r.Intn(14) {
 	case 12:
 		// valid YAML, but one value has the wrong type: the file cannot be used, nothing is inserted
 		c.CfgName, c.Effective, c.Exact = "wrong-type", evasionCfg{}, true
 		c.CfgYAML = "patterns:\n  anti_evasion:\n    unix: _eu_\n    windows: _ew_\n  anti_evasion_suffix:\n    unix: |\n      _su_\n    windows:\n      - a\n      - b\n  anti_evasion_no_space_suffix:\n    unix: _nu_\n    windows: _nw_\n"
+	case 13:
+		// patterns with `$` followed by a name or a digit (text that a replacement template would expand)
+		dollar := evasionCfg{Unix: `(?:\$ifs|\$1|\${x})?`, Windows: `(?:\$0)?`, SuffixUnix: `\$end.*`, SuffixWindows: `\${1}.*`, NoSpUnix: `\$n.*`, NoSpWindows: `\$w.*`}
+		c.CfgName, c.CfgYAML, c.Effective, c.Exact = "dollar-names", dollar.yaml(), dollar, true
 	case 0, 1:
 		c.CfgName, c.CfgYAML, c.Effective, c.Exact = "crs", crsEvasion.yaml(), crsEvasion, true
 	case 2, 3:
@@ -430,6 +455,13 @@ func c04Gen(r *rand.Rand) *c04Case {
 		c.CfgName, c.Effective, c.Exact = "quoted-and-alternation", alt, true
 		c.CfgYAML = "patterns:\n  anti_evasion:\n    unix: \"  (?:x|y)  \"\n    windows: 'q? '\n  anti_evasion_suffix:\n    unix: \"_su_ \"\n    windows: |\n      _sw_  \t\n  anti_evasion_no_space_suffix:\n    unix: >\n      _nu_   \n    windows: \" _nw_\"\n"
 	}
+	if v := r.Intn(8); v < 4 {
+		// comments and keys the tool does not know change nothing
+		if y := yamlExtras(c.CfgYAML, v); y != c.CfgYAML {
+			c.CfgYAML = y
+			c.CfgName += "+extra-keys"
+		}
+	}
 	return c
 }
 
@@ -437,8 +469,8 @@ func init() {
 	register(&core.Property{
 		ID:    "C04",
 		Level: "exploration",
-		Rule: "generated cmdline blocks (unix/windows; 1..5 words over letters, digits, '.', '-', '_', space, with @ / ~ / escaped markers and quote lines; bare, beside plain entries, nested in an assemble block between markers, fed through an include) x 13 configurations of toolchain.yaml (the CRS patterns, distinct literal markers per key and OS, starred classes, absent file, empty file, partial keys, invalid YAML, valid YAML with a wrongly typed value, a directory in place of the file, another file selected with -f next to a decoy default, quoted/folded scalars with a grouped alternation) are compiled by the built CLI. " +
-			"Oracle (membership): for every word the word itself and up to 14 variants with strings inserted between adjacent characters — drawn by random walks from the configured pattern's syntax tree and validated against the plain reading of that single word with Go's regexp — must be matched by the output under search semantics; @/~ variants carry a sampled member of the configured suffix; in single-word programs the bare word (suffix demanded), the word without its escaped marker, the word without its space and the word with '.'/'-' replaced must not be matched; quote lines pass through. For concatenation-safe patterns the output is also compared exactly with the plain-reading model under the configuration in force. Non-trivial = >= 3 validated variants.",
+		Rule: "generated cmdline blocks (unix/windows; 1..5 words over letters, digits, '.', '-', '_', space, with @ / ~ / escaped markers and quote lines; bare, beside plain entries, nested in an assemble block between markers, fed through an include) x 14 configurations of toolchain.yaml, a part of them with comments and unknown keys added (the CRS patterns, patterns with `$name` / `$1` text, distinct literal markers per key and OS, starred classes, absent file, empty file, partial keys, invalid YAML, valid YAML with a wrongly typed value, a directory in place of the file, another file selected with -f next to a decoy default, quoted/folded scalars with a grouped alternation) are compiled by the built CLI. " +
+			"Oracle (membership): for every word the word itself and up to 14 variants with strings inserted between adjacent characters — drawn by random walks from the configured pattern's syntax tree and validated against the plain reading of that single word with Go's regexp — must be matched by the output under search semantics; @/~ variants carry a sampled member of the configured suffix; in single-word programs the bare word (suffix demanded), the word without its escaped marker, the word without its space and the word with '.'/'-' replaced must not be matched; quote lines pass through. For concatenation-safe patterns the output is also compared exactly with the plain-reading model under the configuration in force. A third of the cases also store the program as 932100.ra and run `regex update`: the stored operand must equal generate's output byte for byte. Non-trivial = >= 3 validated variants.",
 		Cases: func(env *core.Env, rng *rand.Rand) []core.Case {
 			n := env.N(2000, 20000)
 			var cs []core.Case
